@@ -140,6 +140,15 @@ def run(tier):
     for bi, ctx in enumerate(["\treport(Site { line: line!(), code: 7 });\n", "\tvar s = Site { line: line!(), code: 1 };\n", "\tvar a: [2]usize = [line!(), 2];\n", "\tvar l: usize = line!();\n",
                               "\tvar m: [2]Site = [Site { line: 1, code: 2 }, Site { line: line!(), code: 3 }];\n", "\tprint!(\"at \", line!(), \"\\n\");\n", "\tvar n: usize = line!() + 1;\n"]):
         others.insert(0, ("bl%d" % bi, "struct Site\n{\n\tline: usize,\n\tcode: i32,\n}\nfn report(s: Site)\n{\n}\nfn main() -> i32\n{\n" + ctx + "\treturn: 0\n}\n"))
+    # aggregate literals whose elements do not agree (inner arrays of another element type or length, members of
+    # another type): rejected, or else compiled to IR the assembler accepts - LLVM's builders and the in-process
+    # verifier do not look inside constant aggregates
+    for mi, (decl, lit) in enumerate([("[2][2]i32", "[[1i32, 2i32], [3u8, 4u8]]"), ("", "[[1i32, 2i32], [3u8, 4u8, 5u8]]"), ("[2][2]i32", "[[1, 2], [3u8, 4u8]]"), ("", "[[1i64, 2i64], [3i32, 4i32]]"),
+                                      ("", "[[true, false], [1u8, 0u8]]"), ("[3][1]u16", "[[1u16], [2u16], [3u8]]"), ("", "[[[1i32]], [[2i64]]]"), ("", "[Site { line: 1, code: 2 }, Site { line: 3u8, code: 4 }]"),
+                                      ("[2][2]i32", "[[1i32, 2i32], [3i32, 4i32]]")]):
+        ty = ": " + decl if decl else ""
+        others.insert(0, ("ma%dc" % mi, "struct Site\n{\n\tline: usize,\n\tcode: i32,\n}\nconst A%s = %s;\nfn main() -> i32\n{\n\treturn: 0\n}\n" % (ty, lit)) if decl else ("ma%dc" % mi, "fn main() -> i32\n{\n\treturn: 0\n}\n"))
+        others.insert(0, ("ma%dv" % mi, "struct Site\n{\n\tline: usize,\n\tcode: i32,\n}\nfn main() -> i32\n{\n\tvar a%s = %s;\n\treturn: 0\n}\n" % (ty, lit)))
     impl2 = C.run_harness("tools", others, ck.work + "/others", timeout=1800)
     # the wasm32 target: the unmutated corpus, programs whose IR mentions usize (slices of strings and
     # arrays, lengths, size-of, indexing), and the head of the stream above
